@@ -165,6 +165,8 @@ class ParameterSpace(DesignSpace):
             self.distribution = distributions[0].JOINT_DISTRIBUTION_CLASS(
                 distributions, copula
             )
+        else:
+            self.distribution = None
 
     def is_uncertain(
         self,
@@ -543,8 +545,7 @@ class ParameterSpace(DesignSpace):
         if name in self.uncertain_variables:
             del self.distributions[name]
             self.uncertain_variables.remove(name)
-            if self.uncertain_variables:
-                self.build_joint_distribution()
+            self.build_joint_distribution()
         super().remove_variable(name)
 
     def compute_samples(
